@@ -470,7 +470,17 @@ var stalls atomic.Int64
 
 const stallLimit = 3
 
-func tooManyStalls() bool { return stalls.Load() >= stallLimit }
+// tooManyStalls: skipping is allowed only once a failure is on record (a stall that turned out to be
+// harmless must never silently shrink the run).
+func tooManyStalls(c *Case) bool {
+	if stalls.Load() < stallLimit {
+		return false
+	}
+	c.X.mu.Lock()
+	n := len(c.X.fails)
+	c.X.mu.Unlock()
+	return n > 0
+}
 
 // fixtureLoginFailed: a plain, valid login of a fixture client (bystander, administrator, …) was
 // not answered.  A single occurrence is tolerated (machine hiccup); repeated ones are reported.
